@@ -357,6 +357,7 @@ class Sim:
         self.nested_ran = False
         before = {"req": {r.id: bool(r.completed) for r in w.ArchiveFileCopyRequest.select()}, "copy": {c.id: c.has_file for c in w.ArchiveFileCopy.select()}}
         res = self._iterate(hostname, crash_at, sql_fault_at)
+        self.crashed_last = bool(res.get("crashed"))
         self.just_completed = set()
         for r in w.ArchiveFileCopyRequest.select():
             if r.completed and not before["req"].get(r.id, False):
@@ -367,6 +368,9 @@ class Sim:
                 self.removed_by_daemon.add(c.id)
             elif c.has_file != "N":
                 self.removed_by_daemon.discard(c.id)
+            if before["copy"].get(c.id) == "M" and c.has_file != "M" and not self.crashed_last:
+                # the daemon has just given its own verdict on this copy: whatever was done to the file before, index and storage must agree again
+                self.tainted.discard((c.node.name, f"{c.file.acq.name}/{c.file.name}"))
         return res
 
     def _iterate(self, hostname, crash_at=None, sql_fault_at=None):
